@@ -201,3 +201,7 @@ Proof.
   rewrite (proj1 (strip_successor eps (d_types d) objs (spec_action a effs) args s)).
   exact (C03_returned_is_successor_lemma d eps a effs args ga [] s s1 allow order uorder Hd Hn Hg Ho Hu Hret Hc).
 Qed.
+
+(* the EMPTY table is a table: an Operator of a problem that declares no object ranges over the domain's constants *)
+Theorem empty_table_is_constants : forall d : mdomain, quantification_objects d [] = d_consts d.
+Proof. intros d. reflexivity. Qed.
